@@ -127,11 +127,11 @@ type encEnt struct {
 }
 
 type encOp struct {
-	K       string       `json:"k"`
-	Console bool         `json:"console"`
-	Cfg     encCfg       `json:"cfg"`
-	Ent     encEnt       `json:"ent"`
-	Reentrant bool       `json:"reentrant"` // exec only: the sink logs another entry (same encoder pools) before it reads its argument
-	Ctx     [][]encField `json:"ctx"`
-	Fields  []encField   `json:"fields"`
+	K         string       `json:"k"`
+	Console   bool         `json:"console"`
+	Cfg       encCfg       `json:"cfg"`
+	Ent       encEnt       `json:"ent"`
+	Reentrant bool         `json:"reentrant"` // exec only: the sink logs another entry (same encoder pools) before it reads its argument
+	Ctx       [][]encField `json:"ctx"`
+	Fields    []encField   `json:"fields"`
 }
